@@ -209,6 +209,12 @@ def restore_regions(ctx, rule):
     A = None
     if amax and len(aloops) == 1:
         loop, pos, item, src, start = aloops[0]
+        brk_ = [x for b_ in loop.body for x in ast.walk(b_) if isinstance(x, ast.Break)]
+        if brk_:
+            ctx.bad(rule, aq, 'the parent loop of is_parent_around is left by break (line %d)' % brk_[0].lineno,
+                    'parents at the positions to the right are never looked at: a child whose live parent sits there is restored although '
+                    'that parent will push it again', None, brk_[0], firm=True)
+            return None
         nb = neighbour_in_loop(afn, loop, pos, item, src, astores)
         if nb is not None and resolve_range_src(afn, nb, astores):
             analyse_step(afn, nb, astores)
